@@ -8,6 +8,7 @@ import (
 	"os"
 	"os/exec"
 	"path/filepath"
+	"runtime"
 	"sort"
 	"strings"
 	"sync"
@@ -466,6 +467,54 @@ func runWT(s wtScenario) (evs []map[string]any, hung bool) {
 			m2.Unlock()
 		}
 	}
+	if s.Prelude == "stress" {
+		// 1.5 s of heavy traffic on 32 OTHER condition variables (a waiter with 1 ms timeouts and a signaller each), then
+		// quiet: whatever the calls share across condition variables has been hammered; the observed call follows
+		stop := make(chan struct{})
+		var sw sync.WaitGroup
+		for g := 0; g < 32; g++ {
+			m2 := new(sync.Mutex)
+			c2 := sync.NewCond(m2)
+			sw.Add(2)
+			go func() {
+				defer sw.Done()
+				for {
+					select {
+					case <-stop:
+						return
+					default:
+					}
+					m2.Lock()
+					machine.WaitTimeout(c2, 1)
+					m2.Unlock()
+				}
+			}()
+			go func() {
+				defer sw.Done()
+				for {
+					select {
+					case <-stop:
+						return
+					default:
+					}
+					m2.Lock()
+					c2.Signal()
+					m2.Unlock()
+					runtime.Gosched()
+				}
+			}()
+		}
+		time.Sleep(1500 * time.Millisecond)
+		close(stop)
+		done := make(chan struct{})
+		go func() { sw.Wait(); close(done) }()
+		select {
+		case <-done:
+		case <-time.After(5 * time.Second):
+			// a crowd member never came back: the observed call is still made, the hang shows as a late return at worst
+		}
+		time.Sleep(50 * time.Millisecond)
+	}
 	if strings.HasPrefix(s.Prelude, "crowd") {
 		// 16 other goroutines, each with a condition variable and mutex of its own, keep calling WaitTimeout (short
 		// timeouts; every second one is also signalled now and then) while the observed call is in flight
@@ -743,6 +792,8 @@ func C16(c *ev.Ctx) {
 		wtScenario{Name: "300-leaks-elsewhere-then-signal", TimeoutMs: 1500, SigAtMs: 30, Kind: "signal", Prelude: "farleak"},
 		wtScenario{Name: "300-leaks-elsewhere-then-broadcast", TimeoutMs: 1500, SigAtMs: 5, Kind: "broadcast", Prelude: "farleak"},
 		wtScenario{Name: "300-leaks-elsewhere-then-timeout", TimeoutMs: 20, SigAtMs: -1, Prelude: "farleak"},
+		wtScenario{Name: "heavy-traffic-elsewhere-then-timeout", TimeoutMs: 20, SigAtMs: -1, Prelude: "stress"},
+		wtScenario{Name: "heavy-traffic-elsewhere-then-signal", TimeoutMs: 1500, SigAtMs: 30, Kind: "signal", Prelude: "stress"},
 		wtScenario{Name: "16-callers-elsewhere-then-timeout", TimeoutMs: 50, SigAtMs: -1, Prelude: "crowd"},
 		wtScenario{Name: "16-callers-elsewhere-then-signal", TimeoutMs: 1500, SigAtMs: 30, Kind: "signal", Prelude: "crowd"},
 		wtScenario{Name: "16-callers-elsewhere-then-broadcast", TimeoutMs: 1500, SigAtMs: 5, Kind: "broadcast", Prelude: "crowd"})
@@ -757,12 +808,18 @@ func C16(c *ev.Ctx) {
 		// scenarios are independent: run them concurrently to keep wall time low
 		results := make([][]map[string]any, len(scen))
 		hung := make([]bool, len(scen))
-		var wg sync.WaitGroup
-		for i := range scen {
-			wg.Add(1)
-			go func(i int) { defer wg.Done(); results[i], hung[i] = runWTChild(scen[i]) }(i)
+		// two waves: the CPU-heavy stress scenarios run after the timing-sensitive ones
+		for _, heavy := range []bool{false, true} {
+			var wg sync.WaitGroup
+			for i := range scen {
+				if (scen[i].Prelude == "stress") != heavy {
+					continue
+				}
+				wg.Add(1)
+				go func(i int) { defer wg.Done(); results[i], hung[i] = runWTChild(scen[i]) }(i)
+			}
+			wg.Wait()
 		}
-		wg.Wait()
 		var all []map[string]any
 		idx := map[int]int{}
 		for i, r := range results {
